@@ -1,5 +1,6 @@
 """C10 Evaluation is a pure function of (solution, current parameters, point)."""
 import sys, os, json, re
+from fractions import Fraction
 sys.path.insert(0, os.path.join(os.path.dirname(os.path.abspath(__file__)), '..', 'mv'))
 sys.path.insert(0, os.path.join(os.path.dirname(os.path.abspath(__file__)), '..'))
 import terms as tm
@@ -177,6 +178,12 @@ def body(chk):
                         # the solver did not finish: look for a concrete witness of the dependence (two values of the stale members,
                         # everything else equal) and let the replay on the real library decide whether it is reported
                         w_ = numeric_dependence(res, res2, [t for t in tm.topo([res, res2]) if t.op == 'sym'], chk.seed, defaults)
+                        if w_ is None:
+                            # the dependence may sit on a path that only a thin region of parameters/points selects: search a point under the
+                            # path condition of each path whose own result mentions a stale member
+                            w_ = path_dependence(chk, good, dirty, m, defaults, argset)
+                            if w_ is not None:
+                                ob.witness = w_
                         if w_ is not None:
                             ob.result = dict(verdict='sat', time=ob.result['time'], output='', solver='z3 (timeout) + numeric witness of dependence on %s' % [t.p for t in dirty][:3], hash=ob.result.get('hash'))
                     chk.obs.append(ob)
@@ -184,6 +191,60 @@ def body(chk):
                     chk.classify(ob)
     chk.extra_cov['skipped_for_path_bound'] = skipped
     chk.solve_all()
+
+
+def path_dependence(chk, good, dirty, m, defaults, argset):
+    """(parameters, arguments) under the path condition of a path whose result depends on a stale member, with two values of that member
+    giving different results; None if no such point is found"""
+    import replay as rp
+    mp = rp.mp
+    dset = set(dirty)
+    for p in good:
+        ret = p['ret']
+        if not isinstance(ret, T) or not any(t in dset for t in tm.topo([ret])):
+            continue
+        conds = [(c if b else tm.lnot(c)) for c, b in p['pc']]
+        syms = [t for t in tm.topo(conds + [ret]) if t.op == 'sym' and t.p != 'PI']
+        import time as _time
+        t_end = _time.time() + 150
+        pars = [t for t in syms if t not in argset and t.p in defaults and defaults[t.p] > 0]
+        near = lambda t: (Fraction(defaults[t.p]) / 2, Fraction(defaults[t.p]) * 3 / 2)
+        wide = lambda t: (Fraction(defaults[t.p]) / 4096, Fraction(defaults[t.p]) * 2)
+        # parameters stay near their (physically sensible) defaults; one at a time is allowed to range over three and a half decades below
+        # its default (thin layers appear at small viscosities); finally all of them
+        plans = [set()] + [set([t]) for t in pars] + [set(pars)]
+        env = None
+        for k_, widened in enumerate(plans):
+            if _time.time() > t_end:
+                break
+            ranges = {t.p: (Fraction(1, 256), Fraction(255, 256)) for t in syms if t in argset}
+            for t in pars:
+                ranges[t.p] = wide(t) if t in widened else near(t)
+            chk.seed += k_
+            try:
+                env = chk.find_point(dict(conds=conds, names=[t.p for t in syms], ranges=ranges), tries=150, steps=600)
+            finally:
+                chk.seed -= k_
+            if not env:
+                continue
+            e1 = {n: mp.mpf(v.numerator) / v.denominator for n, v in env.items()}
+            e2 = dict(e1)
+            ret2 = tm.subst([ret], m)[0]
+            for t in dirty:
+                e1.setdefault(t.p, mp.mpf('0.4375'))
+                e2[m[t].p] = e1[t.p] * mp.mpf('1.5') + mp.mpf('0.125')
+            try:
+                a = tm.evalf([ret], e1, mp, None)[0]
+                b = tm.evalf([ret2], e2, mp, None)[0]
+            except Exception:
+                env = None
+                continue
+            # the dependence must be visible in working precision, not only at 50 digits
+            # (and the value must be of moderate size: next to a pole every history gives the same rounded result)
+            if mp.isfinite(a) and mp.isfinite(b) and abs(a - b) > mp.mpf('1e-6') * (abs(a) + abs(b) + 1) and abs(a) < mp.mpf('1e6'):
+                return env
+            env = None
+    return None
 
 
 def numeric_dependence(res, res2, syms, seed, defaults=None):
@@ -225,10 +286,19 @@ def purity_replay(chk, scalar, name, meth, sig, why):
         st0, sol = chk.world().find(scalar, name)
         pnames = sorted(sol['params'])
         vnames = sorted(sol['vecs'])
-        for perturb in (False, True):
+        wit = getattr(ob, 'witness', None)
+        lit = lambda q: '(Scalar)%s/(Scalar)%s' % (('%dL' % q.numerator) if abs(q.numerator) > 2 ** 31 else q.numerator, ('%dL' % q.denominator) if q.denominator > 2 ** 31 else q.denominator)
+        witp = ''
+        if wit:
+            # the point and parameter values found under the path condition of the stale path
+            a1 = ','.join(lit(wit.get('arg%d' % k, Fraction(37, 100))) if q == 'S' else '2' for k, q in enumerate(sig.split(','))) if sig else ''
+            witp = ''.join('masa_set_param<Scalar>("%s", %s);' % (pn, lit(wit[pn])) for pn in pnames if pn in wit)
+        for perturb in ((False, True) if not wit else (True,)):
             # second round: every registered parameter moved off its default first (defaults hide writes of a value that happens to be the default,
             # e.g. a derived parameter recomputed from another one)
             setp = ''.join('masa_set_param<Scalar>("%s", masa_get_param<Scalar>("%s")*(Scalar)1.0625+(Scalar)0.03125);' % (pn, pn) for pn in pnames) if perturb else ''
+            if wit:
+                setp = witp
             lines = ['masa_init<Scalar>("a","%s"); %s' % (name, setp)]
             for vn in vnames:
                 lines.append('{ std::vector<Scalar> d(3); d[0]=(Scalar)0.25; d[1]=(Scalar)1.5; d[2]=(Scalar)2.75; masa_set_vec<Scalar>("%s",d); }' % vn)
@@ -250,6 +320,10 @@ def purity_replay(chk, scalar, name, meth, sig, why):
                 others.append('{ volatile Scalar o_ = %s<Scalar>(%s); (void)o_; }' % (api2, ','.join('(Scalar)0.81' if q == 'S' else '2' for q in s2.split(',')) if s2 else ''))
             lines.append('%s<Scalar>(%s); %s masa_init<Scalar>("b","%s"); masa_select_mms<Scalar>("a");' % (api, a2, ' '.join(others[:40]), name))
             lines.append('Scalar r2 = %s<Scalar>(%s); printf("R same_value %%d\\n", (int)(r1==r2 || (r1!=r1 && r2!=r2)));' % (api, a1))
+            # ... and after the same evaluator at further points (what a stale member holds depends on the last point evaluated)
+            for k_, (c1_, c2_) in enumerate((('0.11', '0.93'), ('0.93', '0.11'), ('0.03', '0.04'), ('0.5', '0.5'))):
+                ak = ','.join(('(Scalar)%s' % (c1_ if i_ % 2 == 0 else c2_)) if q == 'S' else '3' for i_, q in enumerate(sig.split(','))) if sig else ''
+                lines.append('{ volatile Scalar o_ = %s<Scalar>(%s); (void)o_; Scalar rk = %s<Scalar>(%s); if(!(r1==rk || (r1!=r1 && rk!=rk))) printf("R differs_after_point_%d\\n"); }' % (api, ak, api, a1, k_))
             # fresh handle, same parameters, no history
             lines.append('masa_init<Scalar>("c","%s"); %s' % (name, setp))
             for vn in vnames:
@@ -257,8 +331,10 @@ def purity_replay(chk, scalar, name, meth, sig, why):
             lines.append('Scalar r3 = %s<Scalar>(%s); printf("R same_as_fresh %%d\\n", (int)(r1==r3 || (r1!=r1 && r3!=r3)));' % (api, a1))
             src = '#include <masa.h>\n#include <cstdio>\n#include <vector>\n#include <string>\nusing namespace MASA;\ntypedef %s Scalar;\nint main(){\n%s\n return 0;}\n' % (cxx, '\n'.join(lines))
             rc, out, err = chk.lib().run(src)
+            if os.environ.get('VERIF_DEBUG_C10'):
+                open('/tmp/c10_wit.cpp', 'w').write(src + '\n/*\n' + out[-3000:] + '\n*/\n')
             expect = ['R params_unchanged 1', 'R same_value 1', 'R same_as_fresh 1']
-            missing = [e for e in expect if e not in out]
+            missing = [e for e in expect if e not in out] + [l for l in out.split('\n') if l.startswith('R differs_after_point')][:1]
             if missing:
                 break
         if not missing and pnames:
